@@ -281,6 +281,7 @@ func (x *Exec) VerifyFunction(fn *ssa.Function, con *FuncContract) (obls []*Obl,
 		return nil, fmt.Errorf("%s: no body", x.rootKey)
 	}
 	st := NewState()
+	st.Assume(IntCmp(">", x.allocBase, IntConstI(0)))
 	fr := x.newFrame(fn, 0)
 	fr.isRoot = true
 	fr.con = con
@@ -580,7 +581,10 @@ func (x *Exec) loopHeader(fr *Frame, st *State, b, pred *ssa.BasicBlock, li *loo
 }
 
 func (x *Exec) loopEnv(fr *Frame, st *State, b *ssa.BasicBlock) *SpecEnv {
-	env := x.newSpecEnv(fr, st, nil)
+	env := x.newSpecEnv(fr, st, x.rootPre)
+	if fr.isRoot {
+		x.bindRootParams(env)
+	}
 	x.bindFrameNames(env, fr)
 	for _, ins := range b.Instrs {
 		phi, ok := ins.(*ssa.Phi)
@@ -589,6 +593,16 @@ func (x *Exec) loopEnv(fr *Frame, st *State, b *ssa.BasicBlock) *SpecEnv {
 		}
 		if phi.Comment != "" {
 			env.bind(phi.Comment, TV{fr.vals[phi], phi.Type()})
+		}
+	}
+	// map-range loops: the ghost set of keys already visited
+	for _, ins := range b.Instrs {
+		if nx, ok := ins.(*ssa.Next); ok {
+			if it, ok := fr.vals[nx.Iter].(*IterV); ok && !it.Str {
+				if vis, ok := st.ghost[it.Visited].(*Term); ok {
+					env.bind("visited", TV{V: &SpecVal{Kind: "other", T: vis}})
+				}
+			}
 		}
 	}
 	return env
@@ -629,6 +643,7 @@ func (x *Exec) bindFrameNames(env *SpecEnv, fr *Frame) {
 
 func (x *Exec) havocLoopHeap(fr *Frame, st *State, li *loopInfo) {
 	all := false
+	nonLocal := false
 	names := map[string]bool{}
 	for b := range li.blocks {
 		for _, ins := range b.Instrs {
@@ -636,6 +651,9 @@ func (x *Exec) havocLoopHeap(fr *Frame, st *State, li *loopInfo) {
 			case *ssa.Store:
 				for _, n := range x.arraysOfStore(i.Addr) {
 					names[n] = true
+				}
+				if !storeRootIsLocal(i.Addr) {
+					nonLocal = true
 				}
 			case *ssa.MapUpdate:
 				all = true
@@ -659,8 +677,12 @@ func (x *Exec) havocLoopHeap(fr *Frame, st *State, li *loopInfo) {
 				}
 			}
 		}
+		x.fresh++
 		for pfx := range names {
-			st.ghost["$havoc:"+pfx] = TTrue
+			st.ghost["$havoc:"+pfx] = fmt.Sprintf("l%d", x.fresh)
+		}
+		if nonLocal {
+			x.bumpEpoch(st)
 		}
 	}
 	// iterators
@@ -734,8 +756,7 @@ func (x *Exec) arraysOfStructType(t types.Type) []string {
 
 func (x *Exec) callMayWriteHeap(c *ssa.CallCommon) bool {
 	if c.IsInvoke() {
-		key := x.ifaceMethodKey(c)
-		return !x.CS.PureIface[key]
+		return !x.isPureInvoke(c)
 	}
 	if b, ok := c.Value.(*ssa.Builtin); ok {
 		switch b.Name() {
@@ -798,7 +819,7 @@ func (x *Exec) fnMayWriteHeap(fn *ssa.Function, depth int) bool {
 
 func (x *Exec) callMayWriteHeapDepth(c *ssa.CallCommon, depth int) bool {
 	if c.IsInvoke() {
-		return !x.CS.PureIface[x.ifaceMethodKey(c)]
+		return !x.isPureInvoke(c)
 	}
 	if b, ok := c.Value.(*ssa.Builtin); ok {
 		switch b.Name() {
@@ -1085,4 +1106,25 @@ func ratString(f float64) string {
 		s = "(- " + s + ")"
 	}
 	return s
+}
+
+// storeRootIsLocal reports whether a store address is rooted in a local variable of the function
+// (an Alloc), so that it cannot change memory that existed when the function was entered.
+func storeRootIsLocal(addr ssa.Value) bool {
+	for {
+		switch a := addr.(type) {
+		case *ssa.Alloc:
+			return true
+		case *ssa.FieldAddr:
+			addr = a.X
+		case *ssa.IndexAddr:
+			if _, ok := a.X.Type().Underlying().(*types.Pointer); ok {
+				addr = a.X
+			} else {
+				return false
+			}
+		default:
+			return false
+		}
+	}
 }
